@@ -199,7 +199,7 @@ theorem step_KErr (cfg : Cfg) (o : Op) (L : Lexer) (h : KErr L) : KErr (step cfg
   case pendingText => exact h.pendingTextFrom _ _ _
   case pendingTextToMark => exact h.pendingTextFrom _ _ _
   case pendingTextWithPrev => exact h.pendingTextFrom _ _ _
-  case advance | eatWhile | clearMark | pushPending | nestInc | nestDec | litBegin | litMarkEnd | payClear
+  case advance | eatWhile | clearMark | pushPending | nestInc | nestDec | litBegin | litBeginAtTok | litMarkEnd | payClear
      | litAddDecoded => exact h.frame rfl rfl rfl rfl
   case advanceBy n => exact h.frame rfl rfl rfl rfl
   case addLine => exact h.bufAddLine _ _
@@ -257,9 +257,11 @@ theorem step_KErr (cfg : Cfg) (o : Op) (L : Lexer) (h : KErr L) : KErr (step cfg
   case setPending b => exact h.setPendingStat b
   case litCut => exact (h.addStringLiteralFromSrc (cfg := cfg) L.lit.lastEnd none).frame rfl rfl rfl rfl
   case litResolve back =>
+    have h' : KErr (L.dassert cfg (L.lit.seen || L.lit.start == L.lit.stop)
+      "assertion failed: seen_escape || lit_start_idx == cur_lit_end_idx") := h.frame rfl rfl rfl rfl
     split
-    · exact h.frame rfl rfl rfl rfl
-    · exact (h.addStringLiteralFromSrc (cfg := cfg) L.lit.lastEnd (some (L.curByte - back))).frame rfl rfl rfl rfl
+    · exact h'.frame rfl rfl rfl rfl
+    · exact (h'.addStringLiteralFromSrc (cfg := cfg) L.lit.lastEnd (some (L.curByte - back))).frame rfl rfl rfl rfl
   case loopCheck => split <;> first | exact h | exact h.frame rfl rfl rfl rfl
   case emitEofAtCursor => exact (h.lastLineOrAdd (cfg := cfg)).bufAddToken _
   case dassert c m => exact h.frame rfl rfl rfl rfl
